@@ -35,6 +35,8 @@ def main():
     seeds = sorted(x for x in os.listdir(f"{V}/seeded") if os.path.isdir(f"{V}/seeded/{x}"))
     if len(sys.argv) > 1: seeds = [s for s in seeds if s in sys.argv[1:]]
     results = {}
+    if len(sys.argv) > 1 and os.path.exists(f"{V}/seeded/MATRIX.json"):
+        results = json.load(open(f"{V}/seeded/MATRIX.json"))  # partial run: keep the other rows
     with cf.ThreadPoolExecutor(max_workers=4) as ex:
         for seed, status, fired in ex.map(one, seeds):
             results[seed] = dict(status=status, fired=fired)
